@@ -124,6 +124,19 @@ def gen_pair(rng):
         return None
     new = new.clone()
     tags = edit_new_sig(rng, new)
+    # the target is what the developer's models say, not what a simulation makes of them: where the entries of
+    # unique_together / index_together are the same as before, the models list them in the same order as before
+    for a in new.app_sigs:
+        oa = old.get_app_sig(a.app_id)
+        for m in a.model_sigs:
+            om = oa.get_model_sig(m.model_name) if oa is not None else None
+            if om is None:
+                continue
+            for prop in ('unique_together', 'index_together'):
+                nv, ov = list(getattr(m, prop) or []), list(getattr(om, prop) or [])
+                if nv != ov and sorted(map(tuple, nv)) == sorted(map(tuple, ov)) and 'reorder_together' not in tags:
+                    setattr(m, prop, ov)
+                    tags.append('together_order_kept')
     return spec, old, new, muts, tags
 
 
